@@ -3,10 +3,11 @@
 //
 // The code under test (endorse.VirtualFirmware -> changeEndorsements / addEndorsement /
 // addEndorsementEntry / defaultGenerateBasename / snapshotEndorsement) is driven through its public
-// entry point against the repository's local "no version control" back end (localnonvcs) in a
-// scratch directory, with the repository's in-memory development key manager and certificate
-// authority doing real signing. Everything the oracle says is derived from the directory tree
-// before and after each run.
+// entry point against the repository's local "no version control" back end (localnonvcs, behind the
+// recording wrapper of backend_test.go) in a scratch directory, with the repository's in-memory
+// development key manager and certificate authority doing real signing. Everything the oracle says
+// is derived from the directory tree before and after each run and from the record of what the run
+// published through the back end.
 package c13
 
 import (
@@ -28,6 +29,7 @@ import (
 	"strings"
 	"testing"
 	"time"
+	"unicode/utf8"
 
 	"github.com/google/gce-tcb-verifier/cmd/output"
 	"github.com/google/gce-tcb-verifier/endorse"
@@ -37,7 +39,6 @@ import (
 	"github.com/google/gce-tcb-verifier/sev"
 	"github.com/google/gce-tcb-verifier/sign/memca"
 	"github.com/google/gce-tcb-verifier/tdx"
-	"github.com/google/gce-tcb-verifier/testing/nonprod/localnonvcs"
 	"github.com/google/gce-tcb-verifier/testing/nonprod/memkm"
 	"github.com/google/gce-tcb-verifier/testing/testsign"
 	spb "github.com/google/go-sev-guest/proto/sevsnp"
@@ -59,13 +60,18 @@ func checks(n int) { flag.Set("rapid.checks", strconv.Itoa(n)) }
 
 const (
 	outDir    = "rel/out"   // --out_dir, relative to the localnonvcs root
-	imageName = "ovmf.fd"   // --snapshot image name
+	imageName = "ovmf.fd"   // --snapshot image name (imageNames[0])
+	svsmName  = "svsm.igvm" // the name the snapshot method gives the SVSM image
 	endExt    = ".binarypb" // manifest-method endorsement files
 	sigExt    = ".signed"   // snapshot-method endorsement files
 )
 
 // snapDirs[0] = manifest method; the others are snapshot directories.
 var snapDirs = []string{"", "snap/a", "snap/b"}
+
+// imageNames: base names of the --uefi file (the CLI requires the .fd suffix); two firmware files may
+// be snapshotted into one directory.
+var imageNames = []string{imageName, "b.fd"}
 
 // namePool: candidate names. "" and "endorsement" both mean endorsement.binarypb (the default).
 var namePool = []string{"", "rc1", "endorsement", "sub/rc2"}
@@ -86,6 +92,9 @@ const (
 	kLatest       = "C13/latest-run-not-indexed"
 	kReplaced     = "C13/endorsement-replaced-without-overwrite"
 	kSnapReplaced = "C13/snapshot-endorsement-replaced-without-overwrite"
+	// Two manifest entries spell ONE file differently (rc1.binarypb and ./rc1.binarypb): the candidate
+	// name was not brought to one spelling, so the path index missed the existing entry.
+	kAlias = "C13/candidate-name-alias-splits-entry"
 )
 
 // ---------------------------------------------------------------------------------------------
@@ -231,17 +240,58 @@ type action struct {
 	Name      int  `json:"name"`
 	Overwrite bool `json:"overwrite"`
 	Snap      int  `json:"snap"` // index into snapDirs, 0 = manifest method
+	// Extensions; the zero values are the plain run.
+	ImgName int  `json:"img_name,omitempty"` // snapshot method: index into imageNames
+	Svsm    bool `json:"svsm,omitempty"`     // snapshot method: an SVSM image is supplied (second endorsement file svsm.igvm.signed)
+	TS      int  `json:"ts,omitempty"`       // tsFresh | tsSame (the previous run's timestamp again) | tsBack (earlier than every timestamp so far)
+	Dry     bool `json:"dry,omitempty"`      // --dry_run
+	Fault   int  `json:"fault,omitempty"`    // k > 0: transactional back end whose k-th mutating operation fails
 }
+
+const (
+	tsFresh = iota
+	tsSame
+	tsBack
+)
 
 func (a action) String() string {
 	ow := "F"
 	if a.Overwrite {
 		ow = "T"
 	}
-	if a.Snap > 0 {
-		return fmt.Sprintf("snapshot(img%d -> %s/%s ow=%s)", a.Img, snapDirs[a.Snap], imageName, ow)
+	var ext string
+	switch a.TS {
+	case tsSame:
+		ext += " ts=same"
+	case tsBack:
+		ext += " ts=back"
 	}
-	return fmt.Sprintf("endorse(img%d name#%d ow=%s)", a.Img, a.Name, ow)
+	if a.Dry {
+		ext += " dry"
+	}
+	if a.Fault > 0 {
+		ext += fmt.Sprintf(" fault@%d", a.Fault)
+	}
+	if a.Snap > 0 {
+		svsm := ""
+		if a.Svsm {
+			svsm = "+svsm"
+		}
+		return fmt.Sprintf("snapshot(img%d -> %s/%s%s ow=%s%s)", a.Img, snapDirs[a.Snap], imageNames[a.ImgName], svsm, ow, ext)
+	}
+	return fmt.Sprintf("endorse(img%d name#%d ow=%s%s)", a.Img, a.Name, ow, ext)
+}
+
+// targets lists the endorsement files (root-relative, clean) the run is meant to write.
+func (a action) targets(p *pool) []string {
+	if a.Snap > 0 {
+		t := []string{path.Join(snapDirs[a.Snap], imageNames[a.ImgName]+sigExt)}
+		if a.Svsm {
+			t = append(t, path.Join(snapDirs[a.Snap], svsmName+sigExt))
+		}
+		return t
+	}
+	return []string{path.Join(outDir, basenameOf(p.names[a.Name]))}
 }
 
 type history struct {
@@ -356,20 +406,41 @@ type lastOK struct {
 }
 
 type world struct {
-	root string
-	p    *pool
-	sg   *signing
-	tick int
-	last *lastOK
-	cur  tree // the tree as last read (nil: read it)
-	log  []string
+	root   string
+	p      *pool
+	sg     *signing
+	tick   int
+	lastTS time.Time // the timestamp of the previous run (tsSame)
+	last   *lastOK
+	cur    tree // the tree as last read (nil: read it)
+	log    []string
+	rec    *recVCS // the back end of the run just executed
 }
+
+// svsmImage/svsmMeasurement: what a run with an SVSM supplies (the contents play no role here).
+var (
+	svsmImage       = []byte("verif: stand-in for an SVSM IGVM image")
+	svsmMeasurement = bytes.Repeat([]byte{0x5a}, 48)
+)
 
 func (w *world) trace() string { return strings.Join(w.log, "; ") }
 
 // run executes one endorse run with the real code.
 func (w *world) run(a action) (err error, pan any) {
 	w.tick++
+	// Timestamps: fresh ones grow with every run; tsSame repeats the previous run's; tsBack lies
+	// before every timestamp used so far (a backfilled or clock-skewed signer).
+	ts := baseTime.Add(time.Duration(w.tick) * time.Second)
+	switch a.TS {
+	case tsSame:
+		if !w.lastTS.IsZero() {
+			ts = w.lastTS
+		}
+	case tsBack:
+		ts = baseTime.Add(-time.Duration(w.tick) * time.Second)
+	}
+	w.lastTS = ts
+	w.rec = newRecVCS(w.root, a.Fault > 0, a.Fault)
 	ec := &endorse.Context{
 		SevSnp: &sev.SnpEndorsementRequest{
 			Svn:         2,
@@ -381,14 +452,19 @@ func (w *world) run(a action) (err error, pan any) {
 		Tdx:           &tdx.EndorsementRequest{Svn: 3},
 		ClSpec:        4321,
 		Image:         w.p.images[a.Img],
-		VCS:           &localnonvcs.T{Root: w.root},
-		Timestamp:     baseTime.Add(time.Duration(w.tick) * time.Second), // every run signs a different document
+		VCS:           w.rec,
+		Timestamp:     ts,
 		OutDir:        outDir,
 		CandidateName: w.p.names[a.Name],
+		DryRun:        a.Dry,
+		ImageName:     imageNames[a.ImgName], // the CLI always sets it (base name of --uefi)
 	}
 	if a.Snap > 0 {
 		ec.SnapshotDir = snapDirs[a.Snap]
-		ec.ImageName = imageName
+		if a.Svsm {
+			ec.SvsmImage = svsmImage
+			ec.SvsmSnpMeasurement = svsmMeasurement
+		}
 	}
 	ctx := output.NewContext(context.Background(), &output.Options{Quiet: true, Overwrite: a.Overwrite})
 	ctx = keys.NewContext(ctx, w.sg.kc)
@@ -409,25 +485,36 @@ func (w *world) run(a action) (err error, pan any) {
 // Oracle
 
 type verdict struct {
-	Key     string
-	Msg     string
-	Harness bool // an expectation of the harness (not a clause of the property) failed
+	Key string
+	Msg string
 }
 
 type result struct {
-	mergeCase  string // which branch of the entry merge the run meets (from the state before the run)
-	outcome    string // ok | refused | error
-	class      string
-	nontrivial bool
-	preState   string
-	postState  string
-	dirSame    bool
-	manSame    bool
+	mergeCase    string // which branch of the entry merge the run meets (from the state before the run)
+	outcome      string // ok | refused | dry-run | fault | inconclusive
+	class        string
+	nontrivial   bool
+	inconclusive string // the run behaved in a way the harness did not expect; the statement's clauses were judged all the same
+	dims         []string
+	preState     string
+	postState    string
+	dirSame      bool
+	manSame      bool
 }
 
+// ascii renders a name for state strings and logs (plain names stay as they are).
+func ascii(s string) string {
+	q := strconv.QuoteToASCII(s)
+	return q[1 : len(q)-1]
+}
+
+// fileOf gives the root-relative clean path of the file a manifest entry names (entry paths are
+// relative to the manifest's directory).
+func fileOf(entryPath string) string { return path.Join(outDir, entryPath) }
+
 // abstractState renders the part of the tree the code's behaviour depends on: the manifest as an
-// ordered list of (image index, path), the set of endorsement files present in the out dir and the
-// set of snapshot-method endorsement files (<snapshot_dir>/<image>.signed) present.
+// ordered list of (image index, path as spelled), the set of endorsement files present in the out dir
+// and the set of snapshot-method endorsement files (<snapshot_dir>/<name>.signed) present.
 func abstractState(t tree, p *pool, ordered bool) string {
 	var ents []string
 	if m, _, err := parseManifest(t); err == nil {
@@ -437,7 +524,7 @@ func abstractState(t tree, p *pool, ordered bool) string {
 			if ok {
 				img = "img" + strconv.Itoa(i)
 			}
-			ents = append(ents, img+"@"+e.GetPath())
+			ents = append(ents, img+"@"+ascii(e.GetPath()))
 		}
 	} else {
 		ents = append(ents, "unparsable")
@@ -448,7 +535,7 @@ func abstractState(t tree, p *pool, ordered bool) string {
 	var files []string
 	for rel := range t {
 		if strings.HasPrefix(rel, outDir+"/") && strings.HasSuffix(rel, endExt) {
-			files = append(files, strings.TrimPrefix(rel, outDir+"/"))
+			files = append(files, ascii(strings.TrimPrefix(rel, outDir+"/")))
 		}
 	}
 	sort.Strings(files)
@@ -463,19 +550,22 @@ func abstractState(t tree, p *pool, ordered bool) string {
 }
 
 func classify(a action, pre tree, p *pool) (mergeCase string, targetExists bool) {
-	if a.Snap > 0 {
-		_, ex := pre[path.Join(snapDirs[a.Snap], imageName+sigExt)]
-		return "snapshot", ex
+	targets := a.targets(p)
+	for _, rel := range targets {
+		if _, ex := pre[rel]; ex {
+			targetExists = true
+		}
 	}
-	base := basenameOf(p.names[a.Name])
-	_, targetExists = pre[path.Join(outDir, base)]
+	if a.Snap > 0 {
+		return "snapshot", targetExists
+	}
 	m, _, err := parseManifest(pre)
 	if err != nil {
 		return "pre-unparsable", targetExists
 	}
 	pi, di := -1, -1
 	for i, e := range m.GetEntries() {
-		if e.GetPath() == base {
+		if fileOf(e.GetPath()) == targets[0] {
 			pi = i
 		}
 		if bytes.Equal(e.GetDigest(), p.digests[a.Img]) {
@@ -496,11 +586,13 @@ func classify(a action, pre tree, p *pool) (mergeCase string, targetExists bool)
 }
 
 // judge derives every clause of the property from the trees before and after run a. It returns the
-// first violated clause (nil if none) and a classification of the run.
+// first violated clause (nil if none) and a classification of the run. Behaviour of the run that the
+// harness did not expect (a failure for another reason than the documented refusal, ...) is not a
+// verdict: it is recorded in result.inconclusive.
 func (w *world) judge(a action, pre, post tree, err error, pan any) (*verdict, result) {
 	var res result
-	res.mergeCase, _ = classify(a, pre, w.p)
-	_, targetExists := classify(a, pre, w.p)
+	var targetExists bool
+	res.mergeCase, targetExists = classify(a, pre, w.p)
 	res.preState = abstractState(pre, w.p, true)
 	res.postState = abstractState(post, w.p, true)
 	res.dirSame = sameTree(pre, post)
@@ -517,20 +609,18 @@ func (w *world) judge(a action, pre, post tree, err error, pan any) (*verdict, r
 	bad := func(key, f string, args ...any) (*verdict, result) {
 		return &verdict{Key: key, Msg: fmt.Sprintf(f, args...) + ctxt()}, res
 	}
-	harness := func(f string, args ...any) (*verdict, result) {
-		return &verdict{Harness: true, Msg: fmt.Sprintf(f, args...) + ctxt()}, res
-	}
 	if pan != nil {
 		return bad(kPanic, "the endorse run panicked: %v", pan)
 	}
+	faulted := w.rec != nil && w.rec.fired
 
-	// A successful manifest-method run becomes "the latest successful run".
-	wroteNow := changed(pre, post)
-	if err == nil && a.Snap == 0 {
+	// A successful manifest-method run that is not a dry run becomes "the latest successful run". The
+	// files it wrote are the ones it published through the version-control abstraction.
+	if err == nil && a.Snap == 0 && !a.Dry {
 		l := &lastOK{run: w.tick, act: a, digest: w.p.digests[a.Img], wrote: map[string][32]byte{}}
-		for _, rel := range wroteNow {
+		for _, rel := range w.rec.order {
 			if rel != manifestRel && strings.HasPrefix(rel, outDir+"/") {
-				l.wrote[rel] = sha256.Sum256(post[rel])
+				l.wrote[rel] = w.rec.published[rel]
 			}
 		}
 		w.last = l
@@ -541,11 +631,20 @@ func (w *world) judge(a action, pre, post tree, err error, pan any) (*verdict, r
 	if perr != nil {
 		return bad(kUnparsable, "manifest does not parse as text-format VMEndorsementMap: %v", perr)
 	}
-	// Each path at most once, each digest at most once.
+	// Each file path at most once, each digest at most once. A path is listed twice when two entries
+	// name one file, however they spell it.
 	paths, digests := map[string]int{}, map[string]int{}
 	for i, e := range m.GetEntries() {
-		cp := path.Clean(e.GetPath())
+		cp := fileOf(e.GetPath())
 		if j, dup := paths[cp]; dup {
+			if other := m.GetEntries()[j]; other.GetPath() != e.GetPath() {
+				is := "nothing verifiable"
+				if b, ok := post[cp]; ok {
+					is = w.imageLabel(w.sg.signedDigest(b).digest)
+				}
+				return bad(kAlias, "manifest entries %d (%q, %s) and %d (%q, %s) name one file under two spellings; the file endorses %s, so one of the entries maps its digest to a file signed for another firmware",
+					j, other.GetPath(), w.imageLabel(other.GetDigest()), i, e.GetPath(), w.imageLabel(e.GetDigest()), is)
+			}
 			return bad(kDupPath, "manifest entries %d and %d both name the file %q", j, i, e.GetPath())
 		}
 		paths[cp] = i
@@ -557,7 +656,7 @@ func (w *world) judge(a action, pre, post tree, err error, pan any) (*verdict, r
 	}
 	// Every entry names an existing, authentic endorsement whose signed digest is the entry's digest.
 	for i, e := range m.GetEntries() {
-		rel := path.Join(outDir, e.GetPath())
+		rel := fileOf(e.GetPath())
 		b, ok := post[rel]
 		if !ok {
 			return bad(kFileMissing, "manifest entry %d names %q but there is no such file next to the manifest", i, e.GetPath())
@@ -581,7 +680,7 @@ func (w *world) judge(a action, pre, post tree, err error, pan any) (*verdict, r
 		if !ok {
 			return bad(kLatest, "the firmware digest of the latest successful %s is not in the manifest", who)
 		}
-		rel := path.Join(outDir, m.GetEntries()[i].GetPath())
+		rel := fileOf(m.GetEntries()[i].GetPath())
 		sum, ok := l.wrote[rel]
 		if !ok {
 			var ws []string
@@ -595,7 +694,8 @@ func (w *world) judge(a action, pre, post tree, err error, pan any) (*verdict, r
 			return bad(kLatest, "the file %q written by the latest successful %s no longer holds what that run wrote", rel, who)
 		}
 	}
-	// Without overwrite permission no existing endorsement file is replaced.
+	// Without overwrite permission no existing endorsement file is replaced. (A file that is gone is
+	// not "replaced"; if the manifest still names it the clause above has spoken. It is recorded.)
 	if !a.Overwrite {
 		var rels []string
 		for rel := range pre {
@@ -606,11 +706,13 @@ func (w *world) judge(a action, pre, post tree, err error, pan any) (*verdict, r
 			if !isEndorsementFile(rel) {
 				continue
 			}
-			if nb, ok := post[rel]; !ok || !bytes.Equal(nb, pre[rel]) {
-				was, is := w.sg.signedDigest(pre[rel]), verified{}
-				if ok {
-					is = w.sg.signedDigest(nb)
-				}
+			nb, ok := post[rel]
+			if !ok {
+				res.dims = append(res.dims, "observed/endorsement-file-removed-without-overwrite")
+				continue
+			}
+			if !bytes.Equal(nb, pre[rel]) {
+				was, is := w.sg.signedDigest(pre[rel]), w.sg.signedDigest(nb)
 				const f = "the run had no overwrite permission, yet the existing endorsement file %q (endorsing %s) was replaced (now endorsing %s)"
 				key := kReplaced
 				if strings.HasSuffix(rel, sigExt) {
@@ -621,19 +723,43 @@ func (w *world) judge(a action, pre, post tree, err error, pan any) (*verdict, r
 		}
 	}
 
-	// Classification, and the harness's own expectations about when a run succeeds.
+	// Classification. What the harness expects beyond the statement (a run is refused exactly when a
+	// target endorsement file exists and it has no overwrite permission; a successful snapshot leaves
+	// an endorsement of its image in every target) only labels the run.
 	switch {
+	case a.Dry:
+		res.outcome = "dry-run"
+		if err != nil {
+			res.inconclusive = "dry-run-failed"
+		}
+	case faulted && err != nil:
+		res.outcome = "fault"
 	case err == nil:
 		res.outcome = "ok"
 	case targetExists && !a.Overwrite:
 		// Both commit methods refuse to replace their target endorsement file (<candidate>.binarypb,
-		// <snapshot_dir>/<image>.signed) without overwrite permission.
+		// <snapshot_dir>/<image>.signed, <snapshot_dir>/svsm.igvm.signed) without overwrite permission.
 		res.outcome = "refused"
 	default:
-		res.outcome = "error"
-		return harness("a run that is allowed to write failed: %v", err)
+		res.outcome = "inconclusive"
+		res.inconclusive = "run-allowed-to-write-failed"
 	}
 	switch {
+	case res.inconclusive != "":
+		res.class = "inconclusive/" + res.inconclusive
+	case res.outcome == "dry-run":
+		res.class = "dry-run/" + res.mergeCase
+		if targetExists {
+			res.class += "/target-exists"
+		}
+		if !res.dirSame {
+			res.class += "/tree-changed"
+		}
+	case res.outcome == "fault":
+		res.class = fmt.Sprintf("fault@%d/%s", a.Fault, res.mergeCase)
+		if !res.dirSame {
+			res.class += "/tree-changed"
+		}
 	case res.outcome == "refused":
 		res.class = "refused/" + res.mergeCase
 		if !res.dirSame {
@@ -647,19 +773,62 @@ func (w *world) judge(a action, pre, post tree, err error, pan any) (*verdict, r
 		if !res.manSame {
 			res.class += "/manifest-changed"
 		}
-		rel := path.Join(snapDirs[a.Snap], imageName+sigExt)
-		if v := w.sg.signedDigest(post[rel]); !v.ok || !bytes.Equal(v.digest, w.p.digests[a.Img]) {
-			return harness("snapshot run left no authentic endorsement of its image at %q (%s)", rel, v.why)
+		for _, rel := range a.targets(w.p) {
+			if v := w.sg.signedDigest(post[rel]); !v.ok || !bytes.Equal(v.digest, w.p.digests[a.Img]) {
+				res.inconclusive = "snapshot-left-no-endorsement-of-its-image"
+				res.class = "inconclusive/" + res.inconclusive
+			}
 		}
 	default:
 		res.class = "ok/" + res.mergeCase
 		if targetExists {
 			res.class += "/overwriting"
 		}
+		if faulted {
+			res.class += "/fault-survived"
+		}
 		switch res.mergeCase {
 		case "same-path-new-digest", "same-digest-new-path", "path-and-digest-in-different-entries":
 			res.nontrivial = true
 		}
+	}
+
+	// A snapshot-method run is non-trivial when one of its target endorsement files is already there
+	// (it is refused, or it overwrites).
+	if a.Snap > 0 && targetExists && res.inconclusive == "" && (res.outcome == "ok" || res.outcome == "refused") {
+		res.nontrivial = true
+	}
+
+	// Dimensions worth counting in the evidence.
+	if a.Snap == 0 {
+		if n := w.p.names[a.Name]; path.Join(outDir, basenameOf(n)) != outDir+"/"+basenameOf(n) {
+			d := "dim/alias-spelling"
+			if targetExists {
+				d += "+file-exists"
+			}
+			res.dims = append(res.dims, d)
+		}
+		if a.TS != tsFresh && res.mergeCase != "append" {
+			res.dims = append(res.dims, map[int]string{tsSame: "dim/same-timestamp", tsBack: "dim/backdated"}[a.TS]+"+"+res.mergeCase)
+		}
+		if e := w.p.names[a.Name]; res.outcome == "ok" && ascii(e) != e {
+			res.dims = append(res.dims, "dim/listed-name-needs-escaping")
+		}
+		if len(m.GetEntries()) >= 4 {
+			res.dims = append(res.dims, "dim/manifest-with-4+-entries")
+		}
+	} else if targetExists {
+		d := "dim/snapshot-target-exists"
+		pres := 0
+		for _, rel := range a.targets(w.p) {
+			if _, ok := pre[rel]; ok {
+				pres++
+			}
+		}
+		if a.Svsm && pres == 1 {
+			d += "/only-one-of-two"
+		}
+		res.dims = append(res.dims, d)
 	}
 	return nil, res
 }
@@ -701,12 +870,42 @@ func report(t ev.TB, v *verdict) bool {
 	if v == nil {
 		return false
 	}
-	if v.Harness {
-		t.Fatalf("harness: %s", v.Msg)
-		return true
-	}
-	ev.Violation(t, v.Key, "%s", v.Msg)
+	ev.Violation(t, v.Key, "%s", v.Msg) // does not return for a key that is not a known finding
 	return true
+}
+
+// count records one judged run in the evidence of sub-check name.
+func count(name string, res result, canon string, a action) {
+	ev.Case(name, res.nontrivial, canon, res.class, func() any {
+		return map[string]any{"before": res.preState, "action": a.String(), "after": res.postState, "class": res.class}
+	})
+	for _, d := range res.dims {
+		ev.Class(name, d)
+	}
+}
+
+// tally keeps the harness honest about its own expectations: runs whose behaviour it did not expect
+// are counted, never failed; only a sub-check in which NO run at all succeeded is an infrastructure
+// problem (nothing was examined).
+type tally struct{ runs, ok, inconclusive, known int }
+
+func (c *tally) add(res result) {
+	c.runs++
+	if res.outcome == "ok" {
+		c.ok++
+	}
+	if res.inconclusive != "" {
+		c.inconclusive++
+	}
+}
+
+func (c *tally) finish(t ev.TB, name string) {
+	if c.inconclusive > 0 || c.known > 0 {
+		ev.Note("C13 %s: %d of %d runs behaved in a way the harness did not expect (class inconclusive/*: the statement's clauses were judged, the harness's expectation about success/refusal was not met); %d cases ended in a known finding", name, c.inconclusive, c.runs, c.known)
+	}
+	if c.runs > 0 && c.ok == 0 && c.known == 0 {
+		t.Fatalf("harness: %s: none of %d runs succeeded; nothing was examined", name, c.runs)
+	}
 }
 
 func newWorld(t ev.TB, p *pool) *world {
@@ -725,6 +924,41 @@ func (w *world) close() { os.RemoveAll(w.root) }
 
 var regressionPool = poolSpec{ImageSeeds: []int{11, 12, 13}, Names: []string{"", "rc1", "rc2"}}
 
+type st struct {
+	a    action
+	want string // the class the author of the history expects ("" = none); a different class is counted, not failed
+}
+
+// replay runs a hand-written history and judges every clause after every run.
+func replay(t *testing.T, name string, ps poolSpec, steps []st, allNontrivial bool) {
+	p := fixedPool(ps)
+	w := newWorld(t, p)
+	defer w.close()
+	var c tally
+	var h []action
+	for _, s := range steps {
+		h = append(h, s.a)
+		v, res, _ := w.step(s.a)
+		if v != nil {
+			if !ev.IsKnown(v.Key) {
+				ev.SaveReplay("C13", "TestReplayHistory", history{Pool: ps, Actions: h})
+			}
+			report(t, v)
+			c.known++
+			ev.Class(name, "known-finding/"+v.Key)
+			break
+		}
+		c.add(res)
+		if s.want != "" && res.class != s.want && res.inconclusive == "" {
+			ev.Class(name, "inconclusive/unexpected-class")
+			ev.Note("C13 %s: step %s classified %q, the hand-written history expected %q (%s); the statement's clauses held", name, s.a, res.class, s.want, w.trace())
+		}
+		res.nontrivial = res.inconclusive == "" && (res.nontrivial || allNontrivial)
+		count(name, res, res.preState+"|"+s.a.String(), s.a)
+	}
+	c.finish(t, name)
+}
+
 // Repaired finding (key C13/snapshot-endorsement-replaced-without-overwrite): the snapshot commit
 // method used to write <snapshot_dir>/<image>.signed (a serialized signed endorsement) without
 // consulting the overwrite option, so a second snapshot into the same directory without --overwrite
@@ -732,48 +966,15 @@ var regressionPool = poolSpec{ImageSeeds: []int{11, 12, 13}, Names: []string{"",
 func TestRegressionSnapshotOverwrite(t *testing.T) {
 	const name = "regression/snapshot-overwrite"
 	ev.Rule(name, "hand-written replay: snapshot(img0 -> snap/a, overwrite=F) succeeds; snapshot(img1 -> snap/a, overwrite=F) must leave snap/a/ovmf.fd.signed byte-identical (the clause 'without overwrite permission an existing endorsement file is never replaced'; the run is refused); snapshot(img1 -> snap/a, overwrite=T) succeeds and the file then endorses img1; snapshot(img2 -> snap/b, overwrite=F) into another directory succeeds; all clauses of C13 after every run; all non-trivial; distinct = (state, action)")
-	p := fixedPool(regressionPool)
-	w := newWorld(t, p)
-	defer w.close()
-	type st struct {
-		a    action
-		want string
-	}
-	steps := []st{
+	replay(t, name, regressionPool, []st{
 		{action{Img: 0, Snap: 1}, "snapshot/fresh-dir"},
 		{action{Img: 1, Snap: 1}, "refused/snapshot"},
 		{action{Img: 1, Snap: 1, Overwrite: true}, "snapshot/existing-dir/overwriting"},
 		{action{Img: 2, Snap: 2}, "snapshot/fresh-dir"},
-	}
-	var h []action
-	for _, s := range steps {
-		h = append(h, s.a)
-		v, res, _ := w.step(s.a)
-		if v != nil && !v.Harness && !ev.IsKnown(v.Key) {
-			ev.SaveReplay("C13", "TestReplayHistory", history{Pool: regressionPool, Actions: h})
-		}
-		if report(t, v) {
-			return
-		}
-		if res.class != s.want {
-			t.Fatalf("harness: step %s classified %q, the hand-written history expects %q (%s)", s.a, res.class, s.want, w.trace())
-		}
-		ev.Case(name, true, res.preState+"|"+s.a.String(), res.class, func() any {
-			return map[string]any{"before": res.preState, "action": s.a.String(), "after": res.postState, "class": res.class}
-		})
-	}
+	}, true)
 }
 
-func TestRegressionMergeCases(t *testing.T) {
-	const name = "regression/merge-cases"
-	ev.Rule(name, "hand-written history over 3 images x 3 names that meets, in order: append, append, refusal (existing file, no overwrite), same-path-new-digest, same-digest-new-path (leaves an orphan file), refusal on the orphan, append over the orphan, path-and-digest-in-different-entries, refresh of one entry, a snapshot; oracle: all clauses of C13 after every run; non-trivial = the three merge cases; distinct = (state, action)")
-	p := fixedPool(regressionPool)
-	w := newWorld(t, p)
-	defer w.close()
-	type st struct {
-		a    action
-		want string
-	}
+func mergeCaseSteps(ts int) []st {
 	steps := []st{
 		{action{Img: 0, Name: 0}, "ok/append"},
 		{action{Img: 1, Name: 1}, "ok/append"},
@@ -786,18 +987,80 @@ func TestRegressionMergeCases(t *testing.T) {
 		{action{Img: 0, Name: 1, Overwrite: true}, "ok/refresh-same-entry/overwriting"},
 		{action{Img: 1, Snap: 2}, "snapshot/fresh-dir"},
 	}
-	for _, s := range steps {
-		v, res, _ := w.step(s.a)
-		if report(t, v) {
-			return
-		}
-		if res.class != s.want {
-			t.Fatalf("harness: step %s classified %q, the hand-written history expects %q (%s)", s.a, res.class, s.want, w.trace())
-		}
-		ev.Case(name, res.nontrivial, res.preState+"|"+s.a.String(), res.class, func() any {
-			return map[string]any{"before": res.preState, "action": s.a.String(), "after": res.postState}
-		})
+	for i := range steps {
+		steps[i].a.TS = ts
 	}
+	return steps
+}
+
+const mergeCasesRule = "hand-written history over 3 images x 3 names that meets, in order: append, append, refusal (existing file, no overwrite), same-path-new-digest, same-digest-new-path (leaves an orphan file), refusal on the orphan, append over the orphan, path-and-digest-in-different-entries, refresh of one entry, a snapshot; oracle: all clauses of C13 after every run; non-trivial = the three merge cases; distinct = (state, action)"
+
+func TestRegressionMergeCases(t *testing.T) {
+	ev.Rule("regression/merge-cases", mergeCasesRule)
+	replay(t, "regression/merge-cases", regressionPool, mergeCaseSteps(tsFresh), false)
+}
+
+// The same history with timestamps that do not grow: every run repeats the first run's timestamp /
+// every run is dated before all earlier ones (--timestamp is an input of the run; a backfilled
+// signature or a signer with a slow clock). The manifest must follow the files all the same.
+func TestRegressionMergeCasesTimestamps(t *testing.T) {
+	ev.Rule("regression/merge-cases/same-timestamp", "every run carries the timestamp of the first run; otherwise: "+mergeCasesRule)
+	replay(t, "regression/merge-cases/same-timestamp", regressionPool, mergeCaseSteps(tsSame), false)
+	ev.Rule("regression/merge-cases/backdated", "every run is dated one more second BEFORE the base time, i.e. earlier than every create_time already in the manifest; otherwise: "+mergeCasesRule)
+	replay(t, "regression/merge-cases/backdated", regressionPool, mergeCaseSteps(tsBack), false)
+}
+
+var aliasPool = poolSpec{ImageSeeds: []int{11, 12}, Names: []string{"rc1", "./rc1", "../out/rc1", "sub/rc2"}}
+
+// Minimal history of the finding C13/candidate-name-alias-splits-entry.
+func TestRegressionAliasNames(t *testing.T) {
+	const name = "regression/alias-names"
+	ev.Rule(name, "hand-written replay: endorse(img0, candidate rc1) then endorse(img1, candidate ./rc1, overwrite=T): both names mean rel/out/rc1.binarypb, so the second run meets same-path-new-digest and the manifest must end up with ONE entry for that file, carrying img1's digest; then endorse(img0, candidate ../out/rc1, overwrite=T) likewise; all clauses of C13 after every run; non-trivial = the runs under an alias spelling; distinct = (state, action)")
+	replay(t, name, aliasPool, []st{
+		{action{Img: 0, Name: 0}, "ok/append"},
+		{action{Img: 1, Name: 1, Overwrite: true}, "ok/same-path-new-digest/overwriting"},
+		{action{Img: 0, Name: 2, Overwrite: true}, "ok/same-path-new-digest/overwriting"},
+	}, false)
+}
+
+func TestRegressionSvsmSnapshot(t *testing.T) {
+	const name = "regression/svsm-snapshot"
+	ev.Rule(name, "hand-written replay of the snapshot method with an SVSM image (two endorsement files per run: <dir>/<image>.signed and <dir>/svsm.igvm.signed) and two firmware file names in one directory: snapshot(img0 as ovmf.fd +svsm -> snap/a, ow=F) succeeds; snapshot(img1 as b.fd +svsm, ow=F) meets an existing svsm.igvm.signed only (b.fd.signed is new) and must leave it byte-identical; snapshot(img1 as b.fd without svsm, ow=F) succeeds; snapshot(img2 as b.fd +svsm, ow=T) succeeds; all clauses of C13 after every run; all non-trivial; distinct = (state, action)")
+	replay(t, name, regressionPool, []st{
+		{action{Img: 0, Snap: 1, Svsm: true}, "snapshot/fresh-dir"},
+		{action{Img: 1, Snap: 1, ImgName: 1, Svsm: true}, "refused/snapshot"},
+		{action{Img: 1, Snap: 1, ImgName: 1}, "snapshot/fresh-dir"},
+		{action{Img: 2, Snap: 1, ImgName: 1, Svsm: true, Overwrite: true}, "snapshot/existing-dir/overwriting"},
+	}, true)
+}
+
+func TestRegressionDryRun(t *testing.T) {
+	const name = "regression/dry-run"
+	ev.Rule(name, "hand-written replay: endorse(img0, rc1); dry run of endorse(img1, rc1, ow=T) (a real run would meet same-path-new-digest and rewrite rc1.binarypb); dry run of endorse(img1, rc1, ow=F); dry run of a snapshot over an existing snapshot with ow=T; endorse(img1, rc1, ow=T) for real. A dry run is an endorse run: all clauses of C13 after every run (a dry run does not become 'the latest successful run': by design it writes nothing); all non-trivial; distinct = (state, action)")
+	replay(t, name, regressionPool, []st{
+		{action{Img: 0, Name: 1}, "ok/append"},
+		{action{Img: 0, Snap: 1}, "snapshot/fresh-dir"},
+		{action{Img: 1, Name: 1, Overwrite: true, Dry: true}, "dry-run/same-path-new-digest/target-exists"},
+		{action{Img: 1, Name: 1, Dry: true}, "dry-run/same-path-new-digest/target-exists"},
+		{action{Img: 1, Snap: 1, Overwrite: true, Dry: true}, "dry-run/snapshot/target-exists"},
+		{action{Img: 1, Name: 1, Overwrite: true}, "ok/same-path-new-digest/overwriting"},
+	}, true)
+}
+
+func TestRegressionFaults(t *testing.T) {
+	const name = "regression/faults"
+	ev.Rule(name, "hand-written replay on the transactional back end (writes staged in a workspace, published by TryCommit, dropped by Destroy; observation = the files visible after the run): endorse(img0, rc1), endorse(img1, rc2); then endorse(img1, rc1, ow=T) (path and digest in different entries: file rewritten, one entry removed, one updated) with the k-th mutating workspace operation failing, k = 1..5 (endorsement write, mode change, manifest write, commit; a fifth operation does not exist, that run goes through); then snapshot(img2 -> snap/a) with fault 1..4; all clauses of C13 after every run; all non-trivial; distinct = (state, action)")
+	steps := []st{
+		{action{Img: 0, Name: 1}, "ok/append"},
+		{action{Img: 1, Name: 2}, "ok/append"},
+	}
+	for k := 1; k <= 5; k++ {
+		steps = append(steps, st{action{Img: 1, Name: 1, Overwrite: true, Fault: k}, ""})
+	}
+	for k := 1; k <= 4; k++ {
+		steps = append(steps, st{action{Img: 2, Snap: 1, Fault: k}, ""})
+	}
+	replay(t, name, regressionPool, steps, true)
 }
 
 // ---------------------------------------------------------------------------------------------
@@ -807,7 +1070,7 @@ func genAction(t *rapid.T, nImg, nNames int) action {
 	a := action{
 		Img:       rapid.IntRange(0, nImg-1).Draw(t, "img"),
 		Name:      rapid.IntRange(0, nNames-1).Draw(t, "name"),
-		Overwrite: rapid.IntRange(0, 9).Draw(t, "overwrite") < 6,
+		Overwrite: rapid.IntRange(0, 9).Draw(t, "overwrite") < 5,
 	}
 	if rapid.IntRange(0, 4).Draw(t, "snapshot") == 0 {
 		a.Snap = rapid.IntRange(1, len(snapDirs)-1).Draw(t, "snapDir")
@@ -815,24 +1078,29 @@ func genAction(t *rapid.T, nImg, nNames int) action {
 	return a
 }
 
+func genPoolImages(t *rapid.T, n int) [][]byte {
+	var ls []*fwgen.Layout
+	for i := 0; i < n; i++ {
+		ls = append(ls, fwgen.GenValid(t, fwOpts))
+	}
+	distinctBodies(ls)
+	var images [][]byte
+	for _, l := range ls {
+		images = append(images, l.Spec.Build())
+	}
+	return images
+}
+
 func TestSampledHistories(t *testing.T) {
 	const name = "histories/sampled"
 	const maxPool = 4
-	ev.Rule(name, "endorse.VirtualFirmware with localnonvcs in a scratch directory and the development key manager/CA (real signatures); per history a pool of 2-4 generated firmware images (fwgen: 1-4 pages, SEV-SNP and TDX metadata, distinct bodies) and the first 2-4 of the candidate names {\"\" (default), rc1, endorsement (alias of the default), sub/rc2}; 1-10 runs, each endorse(image, name, overwrite in {F,T} (60% T), commit method in {manifest 80%, snapshot into snap/a or snap/b}); every run signs a document with a fresh timestamp. Oracle after EVERY run (failed ones included), from the directory tree before/after: manifest parses as text VMEndorsementMap; paths pairwise distinct; digests pairwise distinct; every entry's file exists next to the manifest, is an authentic endorsement under the development root (reference predicate) and the digest inside its signed payload equals the entry digest; the digest of the latest successful manifest-method run is in the manifest and maps to a file that run wrote, still holding what it wrote; a run without overwrite permission leaves every pre-existing *.binarypb / *.signed file byte-identical; harness expectation: a run (either method) fails iff its target endorsement file exists and it has no overwrite permission. One evaluation = one run; non-trivial = a successful run that meets same-path-new-digest, same-digest-new-path or path-and-digest-in-different-entries; distinct = (abstract state before, action)")
+	ev.Rule(name, "endorse.VirtualFirmware with localnonvcs (behind a recording pass-through) in a scratch directory and the development key manager/CA (real signatures); per history a pool of 2-4 generated firmware images (fwgen: 1-4 pages, SEV-SNP and TDX metadata, distinct bodies) and the first 2-4 of the candidate names {\"\" (default), rc1, endorsement (alias of the default), sub/rc2}; 1-10 runs, each endorse(image, name, overwrite in {F,T} (50% T), commit method in {manifest 80%, snapshot into snap/a or snap/b}); every run signs a document with a fresh timestamp. Oracle after EVERY run (failed ones included), from the directory tree before/after and the record of what the run published: manifest parses as text VMEndorsementMap; no two entries name one file; digests pairwise distinct; every entry's file exists next to the manifest, is an authentic endorsement under the development root (reference predicate) and the digest inside its signed payload equals the entry digest; the digest of the latest successful manifest-method run is in the manifest and maps to a file that run wrote, still holding what it wrote; a run without overwrite permission leaves every pre-existing *.binarypb / *.signed file that is still there byte-identical. Not judged, only classified (inconclusive/*): whether a run fails exactly when its target endorsement file exists and it has no overwrite permission. One evaluation = one run; non-trivial = a successful manifest-method run that meets same-path-new-digest, same-digest-new-path or path-and-digest-in-different-entries, or a snapshot-method run (successful or refused) one of whose target endorsement files exists; distinct = (abstract state before, action)")
 	checks(ev.Scale(250, 1200))
+	var c tally
 	rapid.Check(t, func(t *rapid.T) {
 		nImg := rapid.IntRange(2, maxPool).Draw(t, "nImages")
 		nNames := rapid.IntRange(2, maxPool).Draw(t, "nNames")
-		var ls []*fwgen.Layout
-		for i := 0; i < nImg; i++ {
-			ls = append(ls, fwgen.GenValid(t, fwOpts))
-		}
-		distinctBodies(ls)
-		var images [][]byte
-		for _, l := range ls {
-			images = append(images, l.Spec.Build())
-		}
-		p := newPool(images, namePool[:nNames])
+		p := newPool(genPoolImages(t, nImg), namePool[:nNames])
 		n := rapid.IntRange(1, 10).Draw(t, "runs")
 		acts := make([]action, n)
 		for i := range acts {
@@ -843,13 +1111,147 @@ func TestSampledHistories(t *testing.T) {
 		for _, a := range acts {
 			v, res, _ := w.step(a)
 			if report(t, v) {
+				c.known++
 				return
 			}
-			ev.Case(name, res.nontrivial, fmt.Sprintf("%d/%d|%s|%s", nImg, nNames, res.preState, a), res.class, func() any {
-				return map[string]any{"before": res.preState, "action": a.String(), "after": res.postState, "class": res.class}
-			})
+			c.add(res)
+			count(name, res, fmt.Sprintf("%d/%d|%s|%s", nImg, nNames, res.preState, a), a)
 		}
 	})
+	c.finish(t, name)
+}
+
+// ---------------------------------------------------------------------------------------------
+// Sub-check A': sampled histories over everything else a run can be given
+
+// extCanon: candidate names with pairwise different files; the last ones need escaping in the text
+// manifest (quote, backslash, non-ASCII, newline) or cannot be a proto string at all (invalid UTF-8).
+var extCanon = []string{"", "rc1", "sub/rc2", "rc3", "rc4", `q"uo\te`, "naïve ü", "two\nlines", "bad\xffutf8"}
+
+// extAlias: further spellings of rc1 and sub/rc2.
+var extAlias = []string{"./rc1", "sub/../rc1", "../out/rc1", "sub//rc2", "endorsement"}
+
+func TestExtendedHistories(t *testing.T) {
+	const name = "histories/extended"
+	ev.Rule(name, "as histories/sampled, with 5 firmware images and every input of a run varied: candidate names from {\"\", rc1, sub/rc2, rc3, rc4 (5 files: manifests of 4+ entries), names that need escaping in the text manifest (quote+backslash, non-ASCII, newline), a name that is not valid UTF-8}; in 30% of the histories also other SPELLINGS of the same files (./rc1, sub/../rc1, ../out/rc1, sub//rc2, endorsement); timestamp of the run in {fresh 40%, the previous run's again 20%, earlier than all so far 40%}; --dry_run 10%; snapshot method 20% into snap/a|snap/b with firmware file name ovmf.fd|b.fd and with/without an SVSM image (second endorsement file svsm.igvm.signed); 10% of the runs on the transactional back end with the k-th (1..5) mutating workspace operation failing. Actions are drawn one by one against the current tree: the name is steered (nominal weights, rapid leans to the first alternative: uniform 6, a name whose file exists 7, a name whose file exists but is not listed 5, a new name together with an image that is not listed 6 = the manifest grows), the image is otherwise steered (50% an image whose digest is listed). 1-12 runs. Oracle: all clauses of C13 after every run, as in histories/sampled; a dry run and a snapshot run do not become 'the latest successful run'. non-trivial = a successful manifest-method run that meets same-path-new-digest, same-digest-new-path or path-and-digest-in-different-entries, or a snapshot-method run (successful or refused) one of whose target endorsement files exists; distinct = (abstract state before, action); classes dim/* count the runs that exercise each varied input against existing state")
+	checks(ev.Scale(350, 1500))
+	var c tally
+	rapid.Check(t, func(t *rapid.T) {
+		const nImg = 5
+		names := extCanon
+		if pick(t, "withAliases", 7, 3) == 1 {
+			names = append(append([]string{}, extCanon...), extAlias...)
+		}
+		p := newPool(genPoolImages(t, nImg), names)
+		n := rapid.IntRange(1, 12).Draw(t, "runs")
+		w := newWorld(t, p)
+		defer w.close()
+		cur := tree{}
+		for i := 0; i < n; i++ {
+			a := genExtAction(t, p, cur)
+			v, res, post := w.step(a)
+			if report(t, v) {
+				c.known++
+				ev.Class(name, "known-finding/"+v.Key)
+				return
+			}
+			cur = post
+			c.add(res)
+			count(name, res, fmt.Sprintf("%d|%s|%s", len(names), res.preState, a), a)
+		}
+	})
+	c.finish(t, name)
+}
+
+// pick draws an alternative with the given weights. rapid's integers lean towards small values, so
+// the plain alternative goes first: it absorbs the lean (and is what cases shrink to).
+func pick(t *rapid.T, label string, weights ...int) int {
+	total := 0
+	for _, w := range weights {
+		total += w
+	}
+	k := rapid.IntRange(0, total-1).Draw(t, label)
+	for i, w := range weights {
+		if k < w {
+			return i
+		}
+		k -= w
+	}
+	return 0
+}
+
+func genExtAction(t *rapid.T, p *pool, cur tree) action {
+	var a action
+	a.Overwrite = rapid.Bool().Draw(t, "overwrite")
+	// which names have a file / an unlisted file, which images are listed
+	listed := map[string]bool{}
+	var listedImgs []int
+	if m, _, err := parseManifest(cur); err == nil {
+		for _, e := range m.GetEntries() {
+			listed[fileOf(e.GetPath())] = true
+			if i, ok := p.byHex[hex.EncodeToString(e.GetDigest())]; ok {
+				listedImgs = append(listedImgs, i)
+			}
+		}
+	}
+	var existing, orphan, free []int
+	for i, n := range p.names {
+		if !utf8.ValidString(n) {
+			continue // can never be listed: only drawn uniformly
+		}
+		rel := path.Join(outDir, basenameOf(n))
+		if _, ok := cur[rel]; ok {
+			existing = append(existing, i)
+			if !listed[rel] {
+				orphan = append(orphan, i)
+			}
+		} else {
+			free = append(free, i)
+		}
+	}
+	isListed := map[int]bool{}
+	for _, i := range listedImgs {
+		isListed[i] = true
+	}
+	var unlistedImgs []int
+	for i := range p.images {
+		if !isListed[i] {
+			unlistedImgs = append(unlistedImgs, i)
+		}
+	}
+	steer := pick(t, "steerName", 6, 7, 5, 6)
+	grow := steer == 3 && len(free) > 0 && len(unlistedImgs) > 0
+	switch {
+	case steer == 1 && len(existing) > 0:
+		a.Name = rapid.SampledFrom(existing).Draw(t, "existingName")
+	case steer == 2 && len(orphan) > 0:
+		a.Name = rapid.SampledFrom(orphan).Draw(t, "orphanName")
+	case grow:
+		a.Name = rapid.SampledFrom(free).Draw(t, "freeName")
+	default:
+		a.Name = rapid.IntRange(0, len(p.names)-1).Draw(t, "name")
+	}
+	switch {
+	case grow:
+		a.Img = rapid.SampledFrom(unlistedImgs).Draw(t, "unlistedImage")
+	case rapid.Bool().Draw(t, "steerImage") && len(listedImgs) > 0:
+		a.Img = rapid.SampledFrom(listedImgs).Draw(t, "listedImage")
+	default:
+		a.Img = rapid.IntRange(0, len(p.images)-1).Draw(t, "img")
+	}
+	a.TS = pick(t, "ts", 4, 2, 4) // tsFresh, tsSame, tsBack
+	if pick(t, "snapshot", 16, 4) == 1 {
+		a.Snap = rapid.IntRange(1, len(snapDirs)-1).Draw(t, "snapDir")
+		a.ImgName = rapid.IntRange(0, len(imageNames)-1).Draw(t, "imageName")
+		a.Svsm = rapid.Bool().Draw(t, "svsm")
+	}
+	switch pick(t, "mode", 40, 5, 5) {
+	case 1:
+		a.Dry = true
+	case 2:
+		a.Fault = rapid.IntRange(1, 5).Draw(t, "faultAt")
+	}
+	return a
 }
 
 // ---------------------------------------------------------------------------------------------
@@ -875,45 +1277,38 @@ func pathTo(nodes []*node, i int) []action {
 	return out
 }
 
+// manifestActions: every image x name x overwrite setting, manifest method.
+func manifestActions(nImg, nNames int) []action {
+	var acts []action
+	for i := 0; i < nImg; i++ {
+		for n := 0; n < nNames; n++ {
+			for _, ow := range []bool{false, true} {
+				acts = append(acts, action{Img: i, Name: n, Overwrite: ow})
+			}
+		}
+	}
+	return acts
+}
+
 // closure explores breadth-first: every action from every abstract state reached, by running the
 // real code on a stored concrete representative of the state, until no new abstract state appears.
-func closure(t *testing.T, name string, ps poolSpec, ordered bool, stateCap int) {
+// An edge that ends in a known finding is counted and not followed.
+func closure(t *testing.T, name string, ps poolSpec, ordered bool, stateCap int, acts []action) {
 	p := fixedPool(ps)
 	w := newWorld(t, p)
 	defer w.close()
-	var acts []action
-	nManifest, nSnap := 0, 0
-	for i := range p.images {
-		for n := range p.names {
-			for _, ow := range []bool{false, true} {
-				acts = append(acts, action{Img: i, Name: n, Overwrite: ow})
-				nManifest++
-			}
-		}
-		for _, ow := range []bool{false, true} {
-			acts = append(acts, action{Img: i, Overwrite: ow, Snap: 1})
-			nSnap++
-		}
-	}
 	key := func(tr tree) string { return abstractState(tr, p, ordered) }
 	nodes := []*node{{state: key(tree{}), tree: tree{}, parent: -1}}
 	index := map[string]int{nodes[0].state: 0}
 	edges, refused, refusedChanged, snaps, snapsManChanged := 0, 0, 0, 0, 0
-	fail := func(i int, a action, v *verdict) bool {
-		if v == nil {
-			return false
-		}
-		if !v.Harness && !ev.IsKnown(v.Key) {
-			ev.SaveReplay("C13", "TestReplayHistory", history{Pool: ps, Actions: append(pathTo(nodes, i), a)})
-		}
-		return report(t, v)
-	}
+	var c tally
 	for i := 0; i < len(nodes); i++ {
 		nd := nodes[i]
 		prefix := pathTo(nodes, i)
 		setup := func() {
 			writeTree(w.root, nd.tree)
 			w.last = nd.last
+			w.lastTS = time.Time{}
 			w.log = w.log[:0]
 			for _, a := range prefix {
 				w.log = append(w.log, a.String())
@@ -923,9 +1318,16 @@ func closure(t *testing.T, name string, ps poolSpec, ordered bool, stateCap int)
 			setup()
 			v, res, post := w.stepFrom(a, nd.tree)
 			edges++
-			if fail(i, a, v) {
-				return
+			if v != nil {
+				if !ev.IsKnown(v.Key) {
+					ev.SaveReplay("C13", "TestReplayHistory", history{Pool: ps, Actions: append(pathTo(nodes, i), a)})
+				}
+				report(t, v)
+				c.known++
+				ev.Class(name, "known-finding/"+v.Key)
+				continue
 			}
+			c.add(res)
 			if res.outcome == "refused" {
 				refused++
 				if !res.dirSame {
@@ -938,9 +1340,7 @@ func closure(t *testing.T, name string, ps poolSpec, ordered bool, stateCap int)
 					snapsManChanged++
 				}
 			}
-			ev.Case(name, res.nontrivial, nd.state+"|"+a.String(), res.class, func() any {
-				return map[string]any{"before": res.preState, "action": a.String(), "after": res.postState, "class": res.class}
-			})
+			count(name, res, nd.state+"|"+a.String(), a)
 			k := key(post)
 			if _, seen := index[k]; !seen {
 				index[k] = len(nodes)
@@ -951,22 +1351,54 @@ func closure(t *testing.T, name string, ps poolSpec, ordered bool, stateCap int)
 			}
 		}
 	}
-	ev.Exhaustive(name)
-	ev.Note("C13 %s: closure reached with %d abstract states and %d executed edges (%d manifest-method and %d snapshot actions per state)", name, len(nodes), edges, nManifest, nSnap)
-	ev.Note("C13 %s: a run (manifest or snapshot method) was refused exactly when its target endorsement file existed and it had no overwrite permission (%d edges; %d of them changed any byte of the tree); %d successful snapshot runs, %d of them changed a byte of the manifest. Neither 'a refused run changes nothing' nor 'a snapshot run leaves the manifest alone' is demanded by the statement; they are recorded, the statement's clauses are checked after those runs like after any other", name, refused, refusedChanged, snaps, snapsManChanged)
-	ev.Note("C13: 'the latest successful run' is read as the latest successful manifest-method run: the snapshot method by design writes <snapshot_dir>/<image>.signed and no manifest entry, so a later snapshot run does not displace the run whose digest the manifest must map")
+	if c.known == 0 {
+		ev.Exhaustive(name)
+	}
+	ev.Note("C13 %s: closure reached with %d abstract states and %d executed edges (%d actions per state); %d edges ended in a known finding and were not followed", name, len(nodes), edges, len(acts), c.known)
+	ev.Note("C13 %s: %d runs were refused (target endorsement file exists, no overwrite permission), %d of them changed a byte of the tree; %d successful snapshot runs, %d of them changed a byte of the manifest. Neither 'a refused run changes nothing' nor 'a snapshot run leaves the manifest alone' is demanded by the statement; they are recorded, the statement's clauses are checked after those runs like after any other", name, refused, refusedChanged, snaps, snapsManChanged)
+	c.finish(t, name)
 	t.Logf("%s: %d abstract states, %d edges", name, len(nodes), edges)
 }
 
-const closureRule = "breadth-first closure over abstract states = (manifest as the ORDERED list of (image, path) entries, set of *.binarypb files present in the out dir, set of snapshot *.signed files present); from a concrete representative tree of every state reached, the real endorse.VirtualFirmware is run for EVERY action image x name x overwrite{F,T} (manifest method) and image x overwrite{F,T} (snapshot method into one snapshot directory), each from the restored representative; a run must be refused iff its target endorsement file exists and it has no overwrite permission; successor state = abstraction of the real tree after the run; exploration ends when no new state appears. Oracle: all clauses of C13 after every run (as in histories/sampled). non-trivial = a successful run that meets same-path-new-digest, same-digest-new-path or path-and-digest-in-different-entries; distinct = (abstract state, action)"
+const closureRule = "breadth-first closure over abstract states = (manifest as the ORDERED list of (image, path as spelled) entries, set of *.binarypb files present in the out dir, set of snapshot *.signed files present); from a concrete representative tree of every state reached, the real endorse.VirtualFirmware is run for EVERY listed action, each from the restored representative; successor state = abstraction of the real tree after the run; exploration ends when no new state appears; an edge that ends in a known finding is counted and not followed. Oracle: all clauses of C13 after every run (as in histories/sampled). non-trivial = a successful manifest-method run that meets same-path-new-digest, same-digest-new-path or path-and-digest-in-different-entries, or a snapshot-method run (successful or refused) one of whose target endorsement files exists; distinct = (abstract state, action)"
 
 func TestClosure3x3(t *testing.T) {
 	if s, _ := strconv.Atoi(os.Getenv("VERIF_SHARD")); s != 0 {
 		t.Skip("the closure is one connected, deterministic exploration; shard 0 runs it")
 	}
 	const name = "closure/3x3"
-	ev.Rule(name, "3 firmware images x 3 candidate names {\"\", rc1, sub/rc2}: "+closureRule)
-	closure(t, name, poolSpec{ImageSeeds: []int{1, 2, 3}, Names: []string{"", "rc1", "sub/rc2"}}, true, 2000)
+	ev.Rule(name, "3 firmware images x 3 candidate names {\"\", rc1, sub/rc2}, actions = image x name x overwrite{F,T}, manifest method (the snapshot method has its own closure: it shares no state with the manifest method): "+closureRule)
+	ev.Note("C13: 'the latest successful run' is read as the latest successful manifest-method run that is not a dry run: the snapshot method by design writes <snapshot_dir>/<image>.signed and no manifest entry, a dry run writes nothing")
+	closure(t, name, poolSpec{ImageSeeds: []int{1, 2, 3}, Names: []string{"", "rc1", "sub/rc2"}}, true, 2000, manifestActions(3, 3))
+}
+
+func TestClosureSnapshots(t *testing.T) {
+	if s, _ := strconv.Atoi(os.Getenv("VERIF_SHARD")); s != 0 {
+		t.Skip("shard 0 runs the closures")
+	}
+	const name = "closure/snapshots"
+	ev.Rule(name, "snapshot method into one directory: 2 firmware images x firmware file name {ovmf.fd, b.fd} x {without, with an SVSM image (second endorsement file svsm.igvm.signed)} x overwrite{F,T}, plus the manifest-method runs endorse(img0, default name, overwrite{F,T}) to see that the two methods leave each other's files alone: "+closureRule+"")
+	var acts []action
+	for i := 0; i < 2; i++ {
+		for n := range imageNames {
+			for _, svsm := range []bool{false, true} {
+				for _, ow := range []bool{false, true} {
+					acts = append(acts, action{Img: i, Snap: 1, ImgName: n, Svsm: svsm, Overwrite: ow})
+				}
+			}
+		}
+	}
+	acts = append(acts, action{Img: 0}, action{Img: 0, Overwrite: true})
+	closure(t, name, poolSpec{ImageSeeds: []int{1, 2}, Names: []string{""}}, true, 500, acts)
+}
+
+func TestClosureAliases(t *testing.T) {
+	if s, _ := strconv.Atoi(os.Getenv("VERIF_SHARD")); s != 0 {
+		t.Skip("shard 0 runs the closures")
+	}
+	const name = "closure/aliases"
+	ev.Rule(name, "2 firmware images x candidate names {rc1, ./rc1, ../out/rc1 (three spellings of rel/out/rc1.binarypb), sub/rc2}, actions = image x name x overwrite{F,T}, manifest method: "+closureRule)
+	closure(t, name, aliasPool, true, 2000, manifestActions(2, 4))
 }
 
 func TestClosure4x4(t *testing.T) {
@@ -977,8 +1409,8 @@ func TestClosure4x4(t *testing.T) {
 		t.Skip("the closure is one connected exploration; shard 0 runs it")
 	}
 	const name = "closure/4x4"
-	ev.Rule(name, "4 firmware images x 4 candidate names {\"\", rc1, rc2, sub/rc3}, entry order abstracted away (manifest as a SET of entries): "+closureRule)
-	closure(t, name, poolSpec{ImageSeeds: []int{1, 2, 3, 4}, Names: []string{"", "rc1", "rc2", "sub/rc3"}}, false, 5000)
+	ev.Rule(name, "4 firmware images x 4 candidate names {\"\", rc1, rc2, sub/rc3}, manifest method, entry order abstracted away (manifest as a SET of entries): "+closureRule)
+	closure(t, name, poolSpec{ImageSeeds: []int{1, 2, 3, 4}, Names: []string{"", "rc1", "rc2", "sub/rc3"}}, false, 5000, manifestActions(4, 4))
 }
 
 // TestReplayHistory re-runs a history saved by the closure exploration (run.py --replay).
